@@ -177,3 +177,40 @@ pub fn any_langid(maxv: usize) -> (LanguageIdentifier, LangIdModel) {
     };
     (LanguageIdentifier::from_raw_parts_unchecked(l, s, r, vs), m)
 }
+
+/// as `any_langid`, with the shape (script / region present, number of variants) fixed by the caller
+pub fn langid_shape(has_s: bool, has_r: bool, nv: usize) -> (LanguageIdentifier, LangIdModel) {
+    let (l, lt) = any_language();
+    let (s, st) = if has_s {
+        let (s, t) = any_script();
+        (Some(s), Some(t))
+    } else {
+        (None, None)
+    };
+    let (r, rt) = if has_r {
+        let (r, t) = any_region();
+        (Some(r), Some(t))
+    } else {
+        (None, None)
+    };
+    let mut m = LangIdModel { lang: lt, lang_und: spec::txt_eq(&lt, &spec::UND), script: st, region: rt, variants: [spec::NOTXT; spec::VMAX], nvariants: 0 };
+    let vs: Option<Box<[Variant]>> = match nv {
+        0 => None,
+        1 => {
+            let (v, vt) = any_variant();
+            m.variants[0] = vt;
+            m.nvariants = 1;
+            Some(Box::new([v]))
+        }
+        _ => {
+            let (v1, t1) = any_variant();
+            let (v2, t2) = any_variant();
+            k::assume(spec::txt_cmp(&t1, &t2) < 0);
+            m.variants[0] = t1;
+            m.variants[1] = t2;
+            m.nvariants = 2;
+            Some(Box::new([v1, v2]))
+        }
+    };
+    (LanguageIdentifier::from_raw_parts_unchecked(l, s, r, vs), m)
+}
